@@ -158,6 +158,9 @@ pub enum KeyRef {
     Raw(String),
     PrefixOf(usize, usize),
     ExtensionOf(usize, Vec<u8>),
+    /// the id of an existing credential in another spelling the library's `Bytes` parser accepts:
+    /// 1 base64url with padding, 2 standard base64 without padding, 3 standard base64 with padding
+    Spelled(usize, u8),
 }
 
 pub type Eval = (Vec<u8>, Option<Vec<u8>>);
@@ -235,6 +238,8 @@ pub struct MakeSpec {
     pub uv: bool,
     pub prf_eval: Option<([u8; 32], Option<[u8; 32]>)>,
     pub hmac_secret: Option<bool>,
+    /// the CTAP 2.2 `hmac-secret-mc` input member is present (platform key agreement, encrypted salts)
+    pub hmac_secret_mc_input: bool,
     pub uv_outcome: UvOutcome,
 }
 
@@ -295,7 +300,7 @@ impl Op {
             Op::Authenticate(a) => json!({"op": "authenticate", "origin": a.origin.url(), "rp_id": a.rp_id, "challenge": hex_short(&a.challenge),
                 "allow": allow(&a.allow), "allow_descriptor_types": a.allow_types, "client_data": a.cd.name(), "uv": format!("{:?}", a.uv), "prf": prf(&a.prf), "uv_outcome": format!("{:?}", a.uv_outcome)}),
             Op::Make(m) => json!({"op": "make_credential", "rp_id": m.rp_id, "user_id": hex_short(&m.user_id), "algs": m.algs, "unknown_type_for_unsupported_algs": m.unknown_type_for_unsupported,
-                "exclude": ids(&m.exclude), "rk": m.rk, "up": m.up, "uv": m.uv, "prf_eval": m.prf_eval.is_some(), "hmac_secret": m.hmac_secret, "uv_outcome": format!("{:?}", m.uv_outcome)}),
+                "exclude": ids(&m.exclude), "rk": m.rk, "up": m.up, "uv": m.uv, "prf_eval": m.prf_eval.is_some(), "hmac_secret": m.hmac_secret, "hmac_secret_mc_input": m.hmac_secret_mc_input, "uv_outcome": format!("{:?}", m.uv_outcome)}),
             Op::Get(g) => json!({"op": "get_assertion", "rp_id": g.rp_id, "allow": allow(&g.allow), "allow_descriptor_types": g.allow_types, "up": g.up, "uv": g.uv, "prf_eval": g.prf_eval.is_some(), "uv_outcome": format!("{:?}", g.uv_outcome)}),
         }
     }
@@ -404,6 +409,14 @@ impl World {
             KeyRef::Raw(s) => s.clone(),
             KeyRef::PrefixOf(k, n) => crate::oracle::b64url(&self.resolve(&IdRef::PrefixOf(*k, *n))),
             KeyRef::ExtensionOf(k, e) => crate::oracle::b64url(&self.resolve(&IdRef::ExtensionOf(*k, e.clone()))),
+            KeyRef::Spelled(i, style) => {
+                let id = self.resolve(&IdRef::Existing(*i));
+                match style {
+                    1 => crate::oracle::b64url_padded(&id),
+                    2 => crate::oracle::b64std_padded(&id).trim_end_matches('=').to_string(),
+                    _ => crate::oracle::b64std_padded(&id),
+                }
+            }
         }
     }
     fn prf_inputs(&self, p: &PrfInputs) -> (AuthenticationExtensionsPrfInputs, Vec<(String, Eval)>) {
@@ -595,10 +608,15 @@ impl World {
                     resolved_exclude = Some(ids);
                     d
                 });
-                let ext = if m.prf_eval.is_some() || m.hmac_secret.is_some() {
+                let ext = if m.prf_eval.is_some() || m.hmac_secret.is_some() || m.hmac_secret_mc_input {
                     Some(ctap2::make_credential::ExtensionInputs {
                         hmac_secret: m.hmac_secret,
-                        hmac_secret_mc: None,
+                        hmac_secret_mc: m.hmac_secret_mc_input.then(|| ctap2::extensions::HmacGetSecretInput {
+                            key_agreement: ciborium::Value::Map(vec![(ciborium::Value::Integer(1.into()), ciborium::Value::Integer(2.into()))]),
+                            salt_enc: vec![0x5e; 32].into(),
+                            salt_auth: vec![0xa7; 16].into(),
+                            pin_uv_auth_protocol: None,
+                        }),
                         prf: m.prf_eval.map(|(a, b)| ctap2::extensions::AuthenticatorPrfInputs {
                             eval: Some(ctap2::extensions::AuthenticatorPrfValues { first: a, second: b }),
                             eval_by_credential: None,
@@ -960,6 +978,7 @@ pub fn gen_make(rng: &mut Rng) -> MakeSpec {
         uv: rng.bool(),
         prf_eval: if rng.chance(1, 4) { Some((rng.arr32(), if rng.bool() { Some(rng.arr32()) } else { None })) } else { None },
         hmac_secret: if rng.chance(1, 6) { Some(rng.bool()) } else { None },
+        hmac_secret_mc_input: rng.chance(1, 6),
         uv_outcome: gen_uv_outcome(rng),
     }
 }
